@@ -5,11 +5,13 @@
    else the new name; with one name (the other being /dev/null or equal) that name; never /dev/null
    (the parser maps it to None).  Stripping is the model of std::path::Components validated against the
    implementation by the parser correspondence (C11/C12 runs use strip 0-3).
-   PARTIAL: option spellings (getopts) and the agreement across drivers and split pushes are decided by
-   the differential runs. *)
+   The choice depends on the file system and the overlay only through what the old name currently is
+   (C16_name_choice_depends_on_view): it is the same in any two worlds that agree on that - in memory or saved by an
+   earlier invocation - which is why split pushes choose alike (with C09_fresh_invocation_equals_continuation).
+   PARTIAL: option spellings (getopts) and the agreement across drivers are decided by the differential runs. *)
 From Coq Require Import List ZArith NArith Bool String.
 Import ListNotations.
-From RQ Require Import Base Apply Parser Quilt QuiltProofs.
+From RQ Require Import Base Apply Parser Quilt QuiltProofs ViewSim.
 Local Open Scope N_scope.
 
 Theorem C16_blank_ignored : parse_series_line [] = ROk None.
@@ -55,3 +57,9 @@ Example C16_spellings :
   = [Some (1, false); Some (0, false); Some (2, false); Some (3, false); Some (4, false); Some (1, true);
      Some (2, true); Some (2, true); Some (2, true); Some (1, false); None; None]%nat.
 Proof. vm_compute. reflexivity. Qed.
+
+(* the file chosen for a file patch is the same in any two worlds in which every name is the same thing *)
+Theorem C16_name_choice_depends_on_view :
+  forall dm fs1 ov1 fs2 ov2 fp, wsim dm fs1 ov1 fs2 ov2 -> choose_filename fs1 ov1 fp = choose_filename fs2 ov2 fp.
+Proof. exact choose_filename_sim. Qed.
+Print Assumptions C16_name_choice_depends_on_view.
